@@ -426,7 +426,7 @@ func c03Gen(t *rapid.T) c03Case {
 		e.MAC = "keep"
 		e.Off = rapid.IntRange(0, 5000).Draw(t, "off")
 		e.Bit = rapid.IntRange(0, 7).Draw(t, "bit")
-		e.Byte = rapid.SampledFrom([]byte{'\r', ' ', '\n', '\t', '=', 'A', 0}).Draw(t, "byte")
+		e.Byte = rapid.SampledFrom([]byte{'\r', ' ', '\n', '\t', '=', 'A', 0, '0', '+', '-', '1'}).Draw(t, "byte")
 	}
 	c.Edit = e
 	return c
@@ -470,7 +470,10 @@ func TestC03(t *testing.T) {
 		{{Kind: "scrypt", Pass: "pw", WF: 1}},
 		{{Kind: "x25519", Idx: 2}, {Kind: "stub", Stub: &hx.StubSpec{Stanzas: []refage.Stanza{{Type: "grease", Args: []string{"a"}, Body: []byte("0123456789")}}}}, {Kind: "ed25519", Idx: 1}},
 	}
+	// a stanza whose body is a whole number of 48-byte lines (its encoding ends in an empty line), not last in the header
+	mixes = append(mixes, []hx.RecSpec{{Kind: "stub", Stub: &hx.StubSpec{Stanzas: []refage.Stanza{{Type: "full-lines", Args: []string{"a"}, Body: hx.PRG(4, 96)}}}}, {Kind: "x25519", Idx: 1}})
 	if s.Thorough() {
+		mixes = append(mixes, []hx.RecSpec{{Kind: "rsa", Idx: 3}, {Kind: "x25519", Idx: 0}})
 		mixes = append(mixes, []hx.RecSpec{{Kind: "rsa", Idx: 0}}, []hx.RecSpec{{Kind: "rsa", Idx: 1}, {Kind: "x25519", Idx: 3}, {Kind: "ed25519", Idx: 2}})
 	}
 	// exhaustive: every single-bit flip, and insertion of CR/SP/LF/TAB/'=' and
@@ -491,7 +494,7 @@ func TestC03(t *testing.T) {
 					yield(c)
 					n++
 				}
-				for _, b := range []byte{'\r', ' ', '\n', '\t', '='} {
+				for _, b := range []byte{'\r', ' ', '\n', '\t', '=', '0', '+', '-', '1', 'A'} {
 					c := base
 					c.Edit = c03Edit{Kind: "raw-insert", Off: off, Byte: b, MAC: "keep"}
 					yield(c)
@@ -503,7 +506,7 @@ func TestC03(t *testing.T) {
 				n++
 			}
 		}
-		s.St.Exhaust(fmt.Sprintf("raw header bytes of %d recipient mixes: every single-bit flip, every insertion of CR/SP/LF/TAB/'=', every deletion", len(mixes)), int64(n))
+		s.St.Exhaust(fmt.Sprintf("raw header bytes of %d recipient mixes: every single-bit flip, every insertion of CR/SP/LF/TAB/'='/'0'/'+'/'-'/'1'/'A', every deletion", len(mixes)), int64(n))
 	}, check)
 	// exhaustive: all reorderings of up to 4 (quick) / 5 (thorough) stanzas
 	pbt.Each(s, "edits-exhaustive", func(yield func(c03Case)) {
